@@ -99,6 +99,25 @@ class HCell:
         return ' '.join([head] + [parts[k] for k in order if k in parts])
 
 
+def group_pairs(lits, mode):
+    """the intersection of the listed surfaces written flat, with the 2nd, 3rd, ... pairs in parentheses, or with
+    the 2nd pair as the complement of a union (the same region in every case, the same listing order)"""
+    if mode == 'flat' or len(lits) < 4:
+        e = lits[0]
+        for l in lits[1:]:
+            e = ('*', e, l)
+        return e
+    e = ('*', lits[0], lits[1])
+    for k in range(2, len(lits) - 1, 2):
+        pair = ('*', lits[k], lits[k + 1])
+        if mode == 'complement' and k == 2:
+            pair = ('#', (':', -lits[k], -lits[k + 1]))
+        e = ('*', e, pair)
+    if len(lits) % 2:
+        e = ('*', e, lits[-1])
+    return e
+
+
 class HDeck(Deck):
     def __init__(self, title='t4mc hierarchical deck'):
         super().__init__(title)
